@@ -113,6 +113,8 @@ theorem fromPlan_tys (st : Store) : ∀ (f : From), (fromPlan f).tys st = f.tys 
     cases st[t]? <;> rfl
   | .join k l r on => by
     simp only [fromPlan, Plan.tys, From.tys, fromPlan_tys st l, fromPlan_tys st r]
+  | .derived f w items => by
+    cases w <;> simp only [fromPlan, Plan.tys, From.tys, fromPlan_tys st f]
 
 theorem evalFrom_plan (st : Store) : ∀ (f : From), evalFrom {} st.db f = evalPlanE st (fromPlan f)
   | .table t => by
@@ -133,18 +135,29 @@ theorem evalFrom_plan (st : Store) : ∀ (f : From), evalFrom {} st.db f = evalP
         | ok _ =>
           simp only [Except.ok.injEq]
           congr 1
+  | .derived f w items => by
+    cases w with
+    | none =>
+      simp only [evalFrom, fromPlan, evalPlanE, applyWhere, evalFrom_plan st f, fromPlan_tys]
+      cases evalPlanE st (fromPlan f) <;> rfl
+    | some e =>
+      simp only [evalFrom, fromPlan, evalPlanE, applyWhere, evalFrom_plan st f, fromPlan_tys, Plan.tys]
+      cases evalPlanE st (fromPlan f) with
+      | error x => rfl
+      | ok rows => cases filterRows (evalPred {} (f.tys st.db) e) rows <;> rfl
 
 /-- a query without aggregates, ORDER BY, DISTINCT, LIMIT and OFFSET: FROM → WHERE → projection -/
 def plainQuery (q : Select) : Bool :=
-  q.aggs.isEmpty && q.orderBy.isEmpty && !q.distinct && q.limit.isNone && q.offset.isNone
+  q.aggs.isEmpty && q.groupBy.isEmpty && q.orderBy.isEmpty && !q.distinct && q.limit.isNone && q.offset.isNone
 
 theorem evalSelect_plan (st : Store) (nf : Bool) (q : Select) (hq : plainQuery q = true) :
     evalSelect {} nf st.db q = evalPlanE st (boundPlan q) := by
-  obtain ⟨distinct, from_, where_, groupBy, aggs, items, orderBy, limit, offset⟩ := q
+  obtain ⟨distinct, from_, where_, groupBy, aggs, items, orderBy, limit, offset, having⟩ := q
   simp only [plainQuery, Bool.and_eq_true, List.isEmpty_iff, Bool.not_eq_eq_eq_not, Bool.not_true,
     Option.isNone_iff_eq_none] at hq
-  obtain ⟨⟨⟨⟨rfl, rfl⟩, rfl⟩, rfl⟩, rfl⟩ := hq
-  simp only [evalSelect, boundPlan, evalFrom_plan, applyWhere, produce, List.isEmpty_nil, if_true, finish,
+  obtain ⟨⟨⟨⟨⟨rfl, rfl⟩, rfl⟩, rfl⟩, rfl⟩, rfl⟩ := hq
+  simp only [evalSelect, boundPlan, evalFrom_plan, applyWhere, produce, Select.isAgg, projectAll, List.isEmpty_nil,
+    Bool.not_true, Bool.or_self, Bool.not_false, if_true, finish,
     limitOffset, Option.getD_none, List.drop_zero, Bool.false_eq_true, if_false]
   cases hf : evalPlanE st (fromPlan from_) with
   | error x => cases where_ <;> cases items <;> simp [evalPlanE, hf]
